@@ -107,19 +107,33 @@ Definition quad_low (S : setup) (t1 t2 : nat) (g1 g2 g3 g4 : list Z) : Q :=
      p21 + p31 + p32 + p41 + p42 + p43).
 
 (** * the matrices.  [geno] = phase 0 haplotypes (n rows), [geno1] = phase 1 (dihybrid only).
-    The loops visit only male < female (last two axes); the mirror copies the lower triangle up; the diagonal keeps
-    its initial value (0 for numpy.zeros). *)
+    Two-way: the loops visit only male < female (last two axes); the mirror copies the lower triangle up; the diagonal keeps
+    its initial value (0 for numpy.zeros) — [mirror].
+    Three-way, four-way, dihybrid: the loops visit male <= female (`range(0,female+1)`), the diagonal included; the mirror
+    copies the strict lower triangle up — [mirror_incl]. *)
 Definition row (geno : list (list Z)) (i : nat) : list Z := nth i geno [].
 Definition mirror (f m : nat) (low : nat -> nat -> Q) : Q :=
   if (m <? f)%nat then low f m else if (f <? m)%nat then low m f else 0.
+Definition mirror_incl (f m : nat) (low : nat -> nat -> Q) : Q :=
+  if (m <=? f)%nat then low f m else low m f.
 
 Definition twoway_entry (S : setup) (geno : list (list Z)) (t1 t2 f m : nat) : Q :=
   mirror f m (fun a b => twoway_low S t1 t2 (row geno a) (row geno b)).
 Definition threeway_entry (S : setup) (geno : list (list Z)) (t1 t2 r f m : nat) : Q :=
-  mirror f m (fun a b => threeway_low S t1 t2 (row geno r) (row geno a) (row geno b)).
+  mirror_incl f m (fun a b => threeway_low S t1 t2 (row geno r) (row geno a) (row geno b)).
 Definition fourway_entry (S : setup) (geno : list (list Z)) (t1 t2 f2 m2 f1 m1 : nat) : Q :=
-  mirror f1 m1 (fun a b => quad_low S t1 t2 (row geno f2) (row geno m2) (row geno a) (row geno b)).
+  mirror_incl f1 m1 (fun a b => quad_low S t1 t2 (row geno f2) (row geno m2) (row geno a) (row geno b)).
 Definition dihybrid_entry (S : setup) (geno geno1 : list (list Z)) (t1 t2 f m : nat) : Q :=
+  mirror_incl f m (fun a b => quad_low S t1 t2 (row geno1 a) (row geno a) (row geno1 b) (row geno b)).
+
+(** the FORMER code (before the repairs `fix: ... compute the crosses whose female and male parent coincide` /
+    `... compute the selfs on the diagonal`): `for male in range(0,female)` never visited the diagonal of the last two
+    axes, which kept the 0 of numpy.zeros.  Kept only as regression witnesses ([old_..._refuted] in Proofs/C12_Findings.v). *)
+Definition old_threeway_entry (S : setup) (geno : list (list Z)) (t1 t2 r f m : nat) : Q :=
+  mirror f m (fun a b => threeway_low S t1 t2 (row geno r) (row geno a) (row geno b)).
+Definition old_fourway_entry (S : setup) (geno : list (list Z)) (t1 t2 f2 m2 f1 m1 : nat) : Q :=
+  mirror f1 m1 (fun a b => quad_low S t1 t2 (row geno f2) (row geno m2) (row geno a) (row geno b)).
+Definition old_dihybrid_entry (S : setup) (geno geno1 : list (list Z)) (t1 t2 f m : nat) : Q :=
   mirror f m (fun a b => quad_low S t1 t2 (row geno1 a) (row geno a) (row geno1 b) (row geno b)).
 
 (** D tables from the recombination matrix R (= gmapfn.mapfn(|genpos_i - genpos_j|)) *)
@@ -145,23 +159,43 @@ Definition threeway_cov S geno n t :=
 Definition fourway_var S geno n t :=
   map (fun f2 => map (fun m2 => map (fun f1 => map (fun m1 => map (fun tr => fourway_entry S geno tr tr f2 m2 f1 m1) (ix t)) (ix n)) (ix n)) (ix n)) (ix n).
 Definition dihybrid_var S geno geno1 n t := map (fun f => map (fun m => map (fun tr => dihybrid_entry S geno geno1 tr tr f m) (ix t)) (ix n)) (ix n).
-(** DenseFourWay...ProgenyGeneticCovarianceMatrix.from_algmod allocates (n,n,n,n,t) and indexes [f2,m2,f1,m1,:,:];
-    DenseDihybrid...ProgenyGeneticCovarianceMatrix.from_algmod allocates (n,n,t) and adds (t,t) blocks: both always raise. *)
-Definition fourway_cov_raises : bool := true.
-Definition dihybrid_cov_raises : bool := true.
+Definition fourway_cov S geno n t :=
+  map (fun f2 => map (fun m2 => map (fun f1 => map (fun m1 => map (fun a => map (fun b => fourway_entry S geno a b f2 m2 f1 m1) (ix t)) (ix t)) (ix n)) (ix n)) (ix n)) (ix n).
+Definition dihybrid_cov S geno geno1 n t :=
+  map (fun f => map (fun m => map (fun a => map (fun b => dihybrid_entry S geno geno1 a b f m) (ix t)) (ix t)) (ix n)) (ix n).
 
 (** * genic variance:  sum_i (ploidy u_i)^2 p_i (1 - p_i),  p = epgc . tafreq[parents];  ploidy = 2.
-    The result array is numpy.empty and only male < female is written: the diagonal is never initialised ([None]). *)
+    Every class loops male <= female over the last two parents and writes [..,female,male] and [..,male,female]. *)
 Definition tafreq (g0 g1 : list Z) (i : nat) : Q := inject_Z (nth i g0 0 + nth i g1 0)%Z / 2.
-Definition genic_pair (u : list (list Q)) (p : nat) (tr : nat) (fa fb : nat -> Q) : Q :=
-  qsum (map (fun i => let pi := (1#2) * fa i + (1#2) * fb i in
+Definition genic_freq (u : list (list Q)) (p : nat) (tr : nat) (pf : nat -> Q) : Q :=
+  qsum (map (fun i => let pi := pf i in
                       let c := 2 * nth tr (nth i u []) 0 in (c * c) * pi * (1 - pi)) (ix p)).
-Definition genic_entry (u : list (list Q)) (p : nat) (geno geno1 : list (list Z)) (tr f m : nat) : option Q :=
-  if (f =? m)%nat then None
-  else Some (genic_pair u p tr (tafreq (row geno f) (row geno1 f)) (tafreq (row geno m) (row geno1 m))).
+(** two-way and dihybrid: epgc = (1/2, 1/2) over (female, male) *)
+Definition genic_pair (u : list (list Q)) (p : nat) (tr : nat) (fa fb : nat -> Q) : Q :=
+  genic_freq u p tr (fun i => (1#2) * fa i + (1#2) * fb i).
+(** three-way: epgc = (1/2, 1/4, 1/4) over (recurrent, female, male) *)
+Definition genic_tri (u : list (list Q)) (p : nat) (tr : nat) (fr fa fb : nat -> Q) : Q :=
+  genic_freq u p tr (fun i => (1#2) * fr i + (1#4) * fa i + (1#4) * fb i).
+(** four-way: epgc = (1/4, 1/4, 1/4, 1/4) over (female2, male2, female1, male1) *)
+Definition genic_quad (u : list (list Q)) (p : nat) (tr : nat) (f1 f2 f3 f4 : nat -> Q) : Q :=
+  genic_freq u p tr (fun i => (1#4) * f1 i + (1#4) * f2 i + (1#4) * f3 i + (1#4) * f4 i).
+Definition taf (geno geno1 : list (list Z)) (a : nat) : nat -> Q := tafreq (row geno a) (row geno1 a).
+Definition genic_entry (u : list (list Q)) (p : nat) (geno geno1 : list (list Z)) (tr f m : nat) : Q :=
+  mirror_incl f m (fun a b => genic_pair u p tr (taf geno geno1 a) (taf geno geno1 b)).
+Definition genic3_entry (u : list (list Q)) (p : nat) (geno geno1 : list (list Z)) (tr r f m : nat) : Q :=
+  mirror_incl f m (fun a b => genic_tri u p tr (taf geno geno1 r) (taf geno geno1 a) (taf geno geno1 b)).
+Definition genic4_entry (u : list (list Q)) (p : nat) (geno geno1 : list (list Z)) (tr f2 m2 f1 m1 : nat) : Q :=
+  mirror_incl f1 m1 (fun a b => genic_quad u p tr (taf geno geno1 f2) (taf geno geno1 m2) (taf geno geno1 a) (taf geno geno1 b)).
 Definition genic_var u p geno geno1 n t := map (fun f => map (fun m => map (fun tr => genic_entry u p geno geno1 tr f m) (ix t)) (ix n)) (ix n).
-(** three-/four-way genic from_algmod allocate (n,n,t) and index with 4 / 5 subscripts: they always raise *)
-Definition multiway_genic_raises : bool := true.
+Definition genic3_var u p geno geno1 n t :=
+  map (fun r => map (fun f => map (fun m => map (fun tr => genic3_entry u p geno geno1 tr r f m) (ix t)) (ix n)) (ix n)) (ix n).
+Definition genic4_var u p geno geno1 n t :=
+  map (fun f2 => map (fun m2 => map (fun f1 => map (fun m1 => map (fun tr => genic4_entry u p geno geno1 tr f2 m2 f1 m1) (ix t)) (ix n)) (ix n)) (ix n)) (ix n).
+(** the FORMER two-way / dihybrid genic code (before `fix: ... genic variance matrices write their diagonal`): the result array was
+    numpy.empty and only male < female was written, so the diagonal was never initialised ([None]).  Regression witness only. *)
+Definition old_genic_entry (u : list (list Q)) (p : nat) (geno geno1 : list (list Z)) (tr f m : nat) : option Q :=
+  if (f =? m)%nat then None
+  else Some (genic_pair u p tr (taf geno geno1 f) (taf geno geno1 m)).
 
 (** * usefulness criterion:  uc = epgc . bv[cconfig] + i * sqrt(var[cconfig]) ;  bv = beta + (g0 + g1) u *)
 Definition bv (u : list (list Q)) (beta : list Q) (p : nat) (g0 g1 : list Z) (tr : nat) : Q :=
@@ -175,8 +209,11 @@ Definition uc_ok (si mean var x : Q) : bool :=
 Definition qclose_lll := list_eqb qclose_ll.
 Definition qclose_l4 := list_eqb qclose_lll.
 Definition qclose_l5 := list_eqb qclose_l4.
-Definition oq_eqb (a b : option Q) : bool := match a, b with Some x, Some y => Qeq_bool x y | None, None => true | _, _ => false end.
-Definition oq_lll := list_eqb (list_eqb (list_eqb oq_eqb)).
+(** exact comparison (regime E) of the genic matrices *)
+Definition qlll_eqb := list_eqb qll_eqb.
+Definition ql4_eqb := list_eqb qlll_eqb.
+Definition ql5_eqb := list_eqb ql4_eqb.
+Definition qclose_l6 := list_eqb qclose_l5.
 (** shipped recombination fractions respect the no-interference product rule along every linkage group:
     1 - 2 r_ik = (1 - 2 r_ij)(1 - 2 r_jk) for adjacent j = i+1 < k, r_ii = 0, r symmetric *)
 Definition r_ok_chrom (R : list (list Q)) (c : nat * nat) : bool :=
